@@ -112,5 +112,5 @@ inline bool close_ulp(double got, double want, double ulps, double abs_extra = 0
 }
 inline bool biteq(double a, double b) { return std::memcmp(&a, &b, sizeof a) == 0; }
 
-inline uint64_t fnv(const void* p, size_t n, uint64_t h = 1469598103934665603ULL) { const unsigned char* c = (const unsigned char*)p; for (size_t i = 0; i < n; i++) { h ^= c[i]; h *= 1099511628211ULL; } return h; }
+inline uint64_t fnv(const void* p, size_t n, uint64_t h = 1469598103934665603ULL) { const unsigned char* c = (const unsigned char*)p; h = (h ^ (h >> 31)) * 0xbf58476d1ce4e5b9ULL + 0x9e3779b97f4a7c15ULL; for (size_t i = 0; i < n; i++) { h ^= c[i]; h *= 1099511628211ULL; } return h ^ (h >> 29); }
 }  // namespace ref
